@@ -481,7 +481,7 @@ fn main() {
         Run::replay_main(&args, &confirm);
     }
     let mut run = Run::new(&args, "dsu", "model_checking");
-    let max_n = args.tier.pick(7, 9);
+    let max_n = args.tier.pick(7, 8);
     let sys = Sys { max_n };
     let cfg = ExploreCfg { max_depth: None, max_states: 30_000_000, wall_cap_s: args.tier.pick(120.0, 1500.0) };
     let r = explore(&sys, &cfg);
